@@ -69,6 +69,9 @@ def explore_program(p, backend, root, differential=True):
             if pr.abspath(consumer) in s['outputs']:
                 s['inputs'].add(pr.abspath(dep))
     all_keys = {s['key'] for s in steps}
+    # a symlink / hardlink copy cannot be stale (it shares its referent's content and mtime):
+    # re-running it is allowed, not demanded; its consumers are demanded as usual
+    optional = {s['key'] for s in steps if s['tool'] == 'lnstub'}
     ao_files = {pr.abspath(v.path) for v in p.always}
     ao_cone = set()
     for s in steps:
@@ -81,7 +84,7 @@ def explore_program(p, backend, root, differential=True):
     again = {s['key'] for s in proj.steps_of(recs2)}
     if rc != 0:
         bad('rebuild-fails', out[-300:])
-    elif again != ao_cone:
+    elif not ((ao_cone - optional) <= again <= ao_cone):
         bad('rebuild-not-noop', 'second build ran %r, expected %r'
             % (sorted(map(label, again)), sorted(map(label, ao_cone))))
     built_snap = os.path.join(root, 'snap-built')
@@ -110,7 +113,7 @@ def explore_program(p, backend, root, differential=True):
         if rc != 0:
             bad('incremental-build-fails', 'after modifying %s: %s' % (rel(f, pr), out[-200:]))
             continue
-        if not (want <= ran <= want | allowed_extra):
+        if not ((want - optional) <= ran <= want | allowed_extra):
             bad('rebuild-set', 'after modifying %s the build ran %r; steps downstream of it: %r'
                 % (rel(f, pr), sorted(map(label, ran)), sorted(map(label, want))))
             continue
@@ -162,8 +165,11 @@ def explore_program(p, backend, root, differential=True):
             else:
                 mf.append(v.path)
         from_clean([a], mf, 'alias')
-    if p.tests:
-        procs = from_clean(['test'], [v.path for v in p.tests], 'test')
+    if p.tests or p.test_args:
+        procs = from_clean(['test'], [v.path for v in p.tests + p.test_args], 'test')
+        targs = sorted(argv[1] for t, argv in procs if t == 'rec' and argv[1:2] and argv[1].startswith('T'))
+        if len(targs) != len(p.test_args):
+            bad('test-processes', 'test goal ran %r for %d declared argument tests' % (targs, len(p.test_args)))
         texe = sorted(os.path.basename(a[1][0]) for a in procs if a[0] == 'testexe')
         if texe != sorted(v.path for v in p.tests):
             bad('test-processes', 'test goal started %r, declared tests %r'
